@@ -75,8 +75,9 @@ def is_prefix(a, b):
     return len(a) <= len(b) and b[:len(a)] == a
 
 
-def check_program(ctx, p, r, jobs, tier):
-    """real-artefact checks of one program; model jobs are appended to `jobs`"""
+def check_program(ctx, p, r, jobs, tier, ajobs, sizes):
+    """real-artefact checks of one program; model jobs are appended to `jobs`
+    (level-2 optimize/erase) and `ajobs` (assembler offsets, level 1)"""
     pid = p['id']
     for lv in (0, 1, 2):
         d = r[str(lv)]
@@ -133,6 +134,16 @@ def check_program(ctx, p, r, jobs, tier):
             elif g['resume']:
                 ctx.bump('resume-not-executed-or-equal')
         ctx.count('T-dbg-real', 1, [f'{pid}@{lv}'])
+        # ---- level 1: the assembler model on the real lists, against the real code bytes
+        if lv == 1 and g.get('code') is not None and n.get('code') is not None:
+            for which, d1 in (('g', g), ('n', n)):
+                it = pg.Intern()
+                try:
+                    pins = pg.to_pins(d1['instrs'], it)
+                except pg.Unsupported:
+                    continue
+                emitted = [i for i in d1['instrs'] if not i[0].startswith('_')]
+                ajobs.append((p, which, [4, pins, it.other_sizes(sizes), []], emitted, d1['code'], it))
         # ---- level 2: the model on the REAL marked list
         if lv == 2 and 'pre' in d.get('pre_g', {}) and 'pre' in d.get('pre_n', {}):
             pg_, pn_ = d['pre_g'], d['pre_n']
@@ -176,11 +187,13 @@ def main(tier, seed):
                     'x levels 0,1,2 x {-g, no -g}: acceptance, erase_marks(-g)=no -g (levels 0/1), sections 1-3 byte-equal, '
                     'device events and outcome equal on the real machine; level 2: extracted model on the real marked list')
     jobs = []
+    ajobs = []
+    sizes = vlib.run_impl('peepfn.instr_sizes', [None])[0]
     for p, r in zip(progs, raws):
         if not isinstance(r, dict) or 'harness' in r or 'exc' in r:
             ctx.broken.append(f'correspondence T-dbg-real: worker failed on {p["id"]}: {str(r)[:300]}')
             break
-        check_program(ctx, p, r, jobs, tier)
+        check_program(ctx, p, r, jobs, tier, ajobs, sizes)
         ctx.bump('kind:' + p['kind'])
     if progs:
         ctx.sample({'suite': 'T-dbg-real', 'program': progs[len(progs) // 2]['id'],
@@ -227,6 +240,35 @@ def main(tier, seed):
             ctx.report('C08/model-differs(assemble-ignores-marks)', {'program': p['id']}, False)
         if e_opt_g != opt_e:
             ctx.bump('level2: markers blocked a window')
+    # ---- T-asm: the assembler model against the real code bytes (level 1, both variants)
+    aouts = vlib.run_model(exe, [a[2] for a in ajobs])
+    for (p, which, job, emitted, code_hex, it), ao in zip(ajobs, aouts):
+        if isinstance(ao, str):
+            ctx.broken.append(f'correspondence T-asm: model driver failed on {p["id"]}')
+            break
+        ctx.count('T-asm', 1, [p['id'] + which])
+        code = bytes.fromhex(code_hex)
+        alen, labels, offs = ao
+        table = {}
+        for k, off in labels:
+            table[k] = off               # a later definition overwrites
+        bad = None
+        if alen != len(code) or len(offs) != len(emitted):
+            bad = f'length model={alen} real={len(code)}'
+        else:
+            for ins, (off, _) in zip(emitted, offs):
+                if ins[0] in ('jmp', 'jz', 'call') or \
+                        (ins[0] == 'errhand' and ins[4] and isinstance(ins[4][0], list)):
+                    want = table.get(it(('label', ins[4][0])))
+                    real = int.from_bytes(code[off + 1:off + 5], 'big')
+                    if want != real:
+                        bad = f'target of {ins[0]} at {off}: model={want} real={real}'
+                        break
+        if bad:
+            ctx.report('C08/model-differs(assembler offsets)',
+                       {'program': p['id'], 'variant': which, 'what': bad}, False)
+    ctx.rule.append('T-asm: the assembler model (offsets, label addresses, length) on the real level-1 lists with and '
+                    'without markers against the real code bytes: code length and the patched operand of every jmp/jz/call')
     ctx.rule.append('T-dbg-model: for every accepted program the extracted optimize/erase_marks are applied to the REAL '
                     'level-1 list with markers: erase_marks(optimize l_g) and optimize(erase_marks l_g) must equal the '
                     'real level-2 lists (with -g, markers erased; without -g); the assembler model gives identical '
